@@ -566,7 +566,30 @@ def slice_iter(eng, st, fr, args, fn, site):
         if arr[0] == 'agg' and arr[2] is None and 0 < len(arr[3]) <= 16:
             elems = tuple(('ref', (a[1][0], a[1][1] + (('f', k, None),))) for k in range(len(arr[3])))
             return T('arr_iter', ('agg', 'array', None, elems), C(0, 'usize'))
+        # an array whose content is unknown (a field of a header read from a file) but whose length the field's type fixes
+        n = _field_array_len(eng, a[1]) if arr[0] == 't' else None
+        if n is not None and 0 < n <= 16:
+            elems = tuple(('ref', (a[1][0], a[1][1] + (('f', k, None),))) for k in range(n))
+            return T('arr_iter', ('agg', 'array', None, elems), C(0, 'usize'))
     return None
+
+
+def _field_array_len(eng, place):
+    """length of the array a place ends in, when the place is a named field that exactly one workspace struct declares with
+    an array type"""
+    proj = place[1]
+    if not proj or proj[-1][0] != 'f' or not isinstance(proj[-1][2], str):
+        return None
+    lens = set()
+    for c in eng.facts.crates:
+        for a_ in c.adts.values():
+            for v_ in a_.get('variants') or []:
+                for f_ in v_.get('fields') or []:
+                    if f_.get('name') == proj[-1][2] and 'ty' in f_:
+                        t_ = c.types[f_['ty']]
+                        if t_.get('k') == 'array' and t_.get('size') and t_.get('esize'):
+                            lens.add(int(t_['size']) // int(t_['esize']))
+    return lens.pop() if len(lens) == 1 else None
 
 
 def array_iter_next(eng, st, fr, args, fn, site):
@@ -943,6 +966,140 @@ def _or_else(first, second):
     def f(eng, st, fr, args, fn, site):
         r = first(eng, st, fr, args, fn, site)
         return r if r is not None else second(eng, st, fr, args, fn, site)
+    return f
+
+
+def int_sign_test(op):
+    """i32::is_negative / is_positive"""
+    def f(eng, st, fr, args, fn, site):
+        x = args[0]
+        if is_int_const(x):
+            return C(int(x[1] < 0 if op == 'Lt' else x[1] > 0), 'bool')
+        return T(op, x, C(0, 'i64'))
+    return f
+
+
+def result_and(eng, st, fr, args, fn, site):
+    """Result::and(self, res): res when self is Ok, the Err of self otherwise"""
+    a = args[0]
+    if a[0] == 'agg' and a[2] == 'Ok':
+        return args[1]
+    if a[0] == 'agg' and a[2] == 'Err':
+        return a
+    if a[0] == 't':
+        d = T('discr', a)
+        return [(args[1], [(d, '==', 0)]), (('agg', RES, 'Err', (T('field', T('as', a, 'Err'), '0'),)), [(d, '==', 1)])]
+    return None
+
+
+def ptr_eq(eng, st, fr, args, fn, site):
+    return T('Eq', args[0], args[1])
+
+
+def iter_zip(eng, st, fr, args, fn, site):
+    """a.zip(b) over two arrays whose elements are known: the array of pairs"""
+    a, b = args[0], args[1]
+    if not (a[0] == 't' and a[1] == 'arr_iter' and is_int_const(a[2][1])):
+        return None
+    ea = list(a[2][0][3][a[2][1][1]:])
+    eb = None
+    if b[0] == 't' and b[1] == 'arr_iter' and is_int_const(b[2][1]):
+        eb = list(b[2][0][3][b[2][1][1]:])
+    else:
+        pb = ptr_term(b)
+        if pb[0] == 'ref':
+            arr = eng.load(st, pb[1])
+            if arr[0] == 'agg' and arr[2] is None:
+                eb = [('ref', (pb[1][0], pb[1][1] + (('f', k, None),))) for k in range(len(arr[3]))]
+        elif b[0] == 'agg' and b[2] is None:
+            eb = list(b[3])
+    if eb is None:
+        return None
+    pairs = tuple(('agg', 'tuple', None, (x, y)) for x, y in zip(ea, eb))
+    return T('arr_iter', ('agg', 'array', None, pairs), C(0, 'usize'))
+
+
+def iter_all_any(how):
+    """all / any over a known array iterator: the predicate is applied in order, the walk stops at the deciding element"""
+    def f(eng, st, fr, args, fn, site):
+        d = ptr_term(args[0])
+        it = eng.load(st, d[1]) if d[0] == 'ref' else args[0]
+        if not (it[0] == 't' and it[1] in ('arr_iter', 'iter_filter', 'iter_map')):
+            return None
+        alts0 = _iter_alts(eng, st, fr, it)
+        if alts0 is None:
+            return None
+        stop_on = (how == 'any')
+        out = []
+        for items, conds, st0 in alts0:
+            live = [(list(conds), st0)]
+            for el in items:
+                nxt = []
+                for cs, st_k in live:
+                    alts = eng.apply_fn(st_k, fr, args[1], [el])
+                    if alts is None:
+                        return None
+                    for a_ in alts:
+                        v, c2 = a_[0], list(a_[1])
+                        st_n = st_k.copy()
+                        if len(a_) > 2 and a_[2] is not None:
+                            st_n.effects = list(a_[2])
+                        if len(a_) > 3 and a_[3] is not None:
+                            st_n.store = dict(a_[3])
+                        if is_int_const(v):
+                            if bool(v[1]) == stop_on:
+                                out.append((C(int(stop_on), 'bool'), cs + c2, list(st_n.effects), dict(st_n.store)))
+                            else:
+                                nxt.append((cs + c2, st_n))
+                        else:
+                            out.append((C(int(stop_on), 'bool'), cs + c2 + [(v, '==', int(stop_on))], list(st_n.effects), dict(st_n.store)))
+                            nxt.append((cs + c2 + [(v, '==', int(not stop_on))], st_n.copy()))
+                live = nxt
+                if len(live) + len(out) > 64:
+                    return None
+            for cs, st_k in live:
+                out.append((C(int(not stop_on), 'bool'), cs, list(st_k.effects), dict(st_k.store)))
+        return out
+    return f
+
+
+def ref_cmp(op):
+    """<&A as PartialEq<&B>>::eq / ne: compares what the references point to"""
+    def f(eng, st, fr, args, fn, site):
+        a, b = args[0], args[1]
+        for _ in range(3):
+            if a[0] == 'ref':
+                a = eng.load(st, a[1])
+            if b[0] == 'ref':
+                b = eng.load(st, b[1])
+        if a[0] == 'ref' or b[0] == 'ref':
+            return None
+        if is_int_const(a) and is_int_const(b):
+            return C(int((a[1] == b[1]) == (op == 'Eq')), 'bool')
+        return T(op, a, b)
+    return f
+
+
+def int_cmp(eng, st, fr, args, fn, site):
+    """<int as Ord>::cmp(&a, &b): an ordering value the is_* predicates below turn back into the comparison"""
+    a, b = deref(eng, st, ptr_term(args[0])), deref(eng, st, ptr_term(args[1]))
+    if is_int_const(a) and is_int_const(b):
+        d = (a[1] > b[1]) - (a[1] < b[1])
+        return ('agg', 'std::cmp::Ordering', {-1: 'Less', 0: 'Equal', 1: 'Greater'}[d], ())
+    return T('int_cmp', a, b)
+
+
+def ordering_is(op):
+    def f(eng, st, fr, args, fn, site):
+        o = args[0]
+        if o[0] == 'ref':
+            o = eng.load(st, o[1])
+        if o[0] == 'agg' and o[2] in ('Less', 'Equal', 'Greater'):
+            d = {'Less': -1, 'Equal': 0, 'Greater': 1}[o[2]]
+            return C(int({'Ge': d >= 0, 'Gt': d > 0, 'Le': d <= 0, 'Lt': d < 0, 'Eq': d == 0, 'Ne': d != 0}[op]), 'bool')
+        if o[0] == 't' and o[1] == 'int_cmp':
+            return T(op, o[2][0], o[2][1])
+        return None
     return f
 
 
@@ -1475,8 +1632,34 @@ SUMMARIES = {
     'std::sync::mpsc::Receiver::<T>::iter': recv_iter,
     "<&'a std::sync::mpsc::Receiver<T> as std::iter::IntoIterator>::into_iter": recv_iter,
     'std::iter::repeat_with': repeat_with,
-    'std::iter::Iterator::any': endless_consume('any'),
-    'std::iter::Iterator::all': endless_consume('all'),
+    'std::iter::Iterator::any': _or_else(endless_consume('any'), iter_all_any('any')),
+    'std::iter::Iterator::all': _or_else(endless_consume('all'), iter_all_any('all')),
+    'std::iter::Iterator::zip': iter_zip,
+    'std::num::<impl i32>::is_negative': int_sign_test('Lt'),
+    'std::num::<impl i64>::is_negative': int_sign_test('Lt'),
+    'std::num::<impl isize>::is_negative': int_sign_test('Lt'),
+    'std::num::<impl i32>::is_positive': int_sign_test('Gt'),
+    'std::num::<impl isize>::is_positive': int_sign_test('Gt'),
+    'std::result::Result::<T, E>::and': result_and,
+    'std::ptr::eq': ptr_eq,
+    'std::cmp::impls::<impl std::cmp::Ord for usize>::cmp': int_cmp,
+    'std::cmp::impls::<impl std::cmp::Ord for isize>::cmp': int_cmp,
+    'std::cmp::impls::<impl std::cmp::Ord for u8>::cmp': int_cmp,
+    'std::cmp::impls::<impl std::cmp::Ord for u16>::cmp': int_cmp,
+    'std::cmp::impls::<impl std::cmp::Ord for u32>::cmp': int_cmp,
+    'std::cmp::impls::<impl std::cmp::Ord for u64>::cmp': int_cmp,
+    'std::cmp::impls::<impl std::cmp::Ord for i8>::cmp': int_cmp,
+    'std::cmp::impls::<impl std::cmp::Ord for i16>::cmp': int_cmp,
+    'std::cmp::impls::<impl std::cmp::Ord for i32>::cmp': int_cmp,
+    'std::cmp::impls::<impl std::cmp::Ord for i64>::cmp': int_cmp,
+    'std::cmp::Ordering::is_ge': ordering_is('Ge'),
+    'std::cmp::Ordering::is_gt': ordering_is('Gt'),
+    'std::cmp::Ordering::is_le': ordering_is('Le'),
+    'std::cmp::Ordering::is_lt': ordering_is('Lt'),
+    'std::cmp::Ordering::is_eq': ordering_is('Eq'),
+    'std::cmp::Ordering::is_ne': ordering_is('Ne'),
+    'std::cmp::impls::<impl std::cmp::PartialEq<&B> for &A>::eq': ref_cmp('Eq'),
+    'std::cmp::impls::<impl std::cmp::PartialEq<&B> for &A>::ne': ref_cmp('Ne'),
     'std::iter::Iterator::try_for_each': iter_try_for_each(True),
     'std::iter::Iterator::for_each': iter_try_for_each(False),
     'std::iter::Iterator::min': iter_consume('min'),
